@@ -16,7 +16,7 @@ from harness import lexer_step as LS
 HNAME = "harness.respell"
 TRI = {'{': "??<", '}': "??>", '[': "??(", ']': "??)", '#': "??=", '^': "??'", '|': "??!", '~': "??-"}
 DI = {'{': "<%", '}': "%>", '[': "<:", ']': ":>", '#': "%:"}
-MODES = ("splice", "splice_tri", "tri", "di")
+MODES = ("splice", "splice_tri", "splice_plain_then_tri", "splice_tri_then_plain", "tri", "di")
 
 
 def chunks(tier, N):
@@ -82,15 +82,16 @@ def analyse(chars, mode, out):
     sites = []
     for ti, o in enumerate(offs + [n]):
         t = base[ti] if ti < len(base) else None
-        if mode in ("splice", "splice_tri"):
+        if mode.startswith("splice"):
             sites.append((ti, o, t))
         elif t is not None and t.value is None:
             # every character of a punctuator lexeme is an edit site (mixed spellings such as "|??!" for "||")
             for k in range(len(O.LEXEME_OF.get(t.type, " "))):
                 sites.append((ti, o + k, t))
     for ti, o, t in sites:
-        if mode in ("splice", "splice_tri"):
-            sp = ["\\", "\n"] if mode == "splice" else ["?", "?", "/", "\n"]
+        if mode.startswith("splice"):
+            plain, tri = ["\\", "\n"], ["?", "?", "/", "\n"]
+            sp = {"splice": plain, "splice_tri": tri, "splice_plain_then_tri": plain + tri, "splice_tri_then_plain": tri + plain}[mode]
             items = list(chars[:o]) + sp + list(chars[o:])
             site = f"before:{t.type if t else 'EOF'}/after:{base[ti - 1].type if ti else 'BOF'}"
         else:
